@@ -918,7 +918,7 @@ let () =
   let mo = open_out modelf and jo = open_out judgef in
   List.iter (fun line ->
     let secs = sections line in
-    match mode with
+    try match mode with
     | "idx" -> run_idx mo jo impl secs; run_seg mo jo impl secs; run_pla mo jo impl secs; run_flt mo jo impl secs
     | "dyn" -> run_dyn mo jo impl secs
     | "var" -> run_bkt mo jo impl secs; run_efi mo jo impl secs
@@ -930,6 +930,9 @@ let () =
     | "cmp" -> run_cmp mo jo impl secs
     | "all" -> run_idx mo jo impl secs; run_seg mo jo impl secs; run_pla mo jo impl secs; run_flt mo jo impl secs; run_dyn mo jo impl secs; run_bkt mo jo impl secs; run_efi mo jo impl secs;
       run_map mo jo impl secs; run_mul mo jo impl secs; run_cix mo jo impl secs; run_cdy mo jo impl secs; run_cmp mo jo impl secs
-    | _ -> failwith "unknown mode") (read_lines cases);
+    | _ -> failwith "unknown mode"
+    with Failure m when m <> "unknown mode" -> pr jo "JERR %s malformed implementation output (%s)\n" (match secs with (_ :: id :: _) :: _ -> id | _ -> "?") m
+       | Invalid_argument m -> pr jo "JERR %s malformed implementation output (%s)\n" (match secs with (_ :: id :: _) :: _ -> id | _ -> "?") m
+       | Not_found -> pr jo "JERR %s malformed implementation output\n" (match secs with (_ :: id :: _) :: _ -> id | _ -> "?")) (read_lines cases);
   Hashtbl.iter (fun prop (n, f) -> pr jo "JSUM %s %d %d\n" prop n f) jcount;
   close_out mo; close_out jo
